@@ -467,6 +467,21 @@ def run_unary(prop, tier, seed, replay):
                 res = engine.merge_results(res, res2)
         else:
             res = engine.run_layout_cases(work, driver, [prop], cs)
+        if prop == "C01" and not replay:
+            # a Return later than the time budget is measured in wall-clock time: on a loaded machine a process can lose the
+            # CPU for seconds.  Such cases are run again, one process at a time, and count only if they are late again.
+            late = [v for v in res.violations if any(cl == "TimeBudget" for _, cl in v["clauses"])]
+            if late:
+                again = [{k: x for k, x in res.cases[v["case"]].items() if k not in ("case", "_sh")} for v in late]
+                core.log("[C01] %d returns were later than their budget; running them again alone" % len(late))
+                res2 = engine.run_layout_cases(work, driver, [prop], again, tag="late", nshards=1, mem_mb=2000)
+                still = {json.dumps(core.case_signature(res2.cases[v["case"]]), sort_keys=True) for v in res2.violations}
+                keep = []
+                for v in res.violations:
+                    if v in late and json.dumps(core.case_signature(res.cases[v["case"]]), sort_keys=True) not in still:
+                        continue
+                    keep.append(v)
+                res.violations = keep
         models = []
         if not replay:
             if prop == "C02":
